@@ -60,7 +60,8 @@ func runC05(c *Ctx) {
 		n = 400
 		perProg = 0 // all crash points
 	}
-	progs := rtPrograms(c, n, GenOpts{})
+	progs := rtPrograms(c, n/2, GenOpts{Preflight: true})
+	progs = append(progs, rtProgramsGenOnly(c, n-n/2, GenOpts{Files: true, Retain: true})...)
 	// reference runs
 	var refSpecs []*TASpec
 	for _, p := range progs {
@@ -94,9 +95,14 @@ func runC05(c *Ctx) {
 			a := 1 + c.Rng.Intn(ne)
 			points = append(points, []int{a, a + 1 + c.Rng.Intn(10)})
 		}
+		// mrp killed during / right after post-processing (negative = PostProcessCrash mode)
+		points = append(points, []int{-1}, []int{-2})
 		for _, pt := range points {
 			s := &TASpec{Name: fmt.Sprintf("%s#crash%v", p.Name, pt), Src: p.Src, MroPaths: p.MroPaths, Seed: c.Seed, StepBias: 0.4,
 				StartSeparate: 0.3, CrashAt: pt, CrashSurvive: 0.3, WantEvents: true, WantTrace: true, TimeoutS: 40}
+			if pt[0] < 0 {
+				s.CrashAt, s.PostProcessCrash, s.WantTrace = nil, -pt[0], false
+			}
 			cases = append(cases, crashCase{p, ref, s})
 			specs = append(specs, s)
 		}
@@ -149,6 +155,10 @@ func runC05(c *Ctx) {
 		}
 		if res.LockLeft {
 			r.violate(Violation{Kind: "property", Key: "C05:lock-left", What: "_lock still present after completion", Input: input})
+		}
+		if bad := monitorOrder(cs.prog, res.Events); len(bad) > 0 {
+			r.violate(Violation{Kind: "property", Key: "C05:order-after-restart:" + classifyOrder(bad[0]),
+				What: "after kill+restart a job started before something it depends on had finished: " + bad[0], Input: input, Impl: bad})
 		}
 		if ok, detail, done := replayInModel(c, res); done && !ok {
 			r.violate(Violation{Kind: "correspondence", Key: "C05:sched-replay-reject:" + classifyReject(detail),
@@ -313,6 +323,10 @@ func runC06(c *Ctx) {
 						Input: input})
 				}
 			}
+		}
+		if bad := monitorOrder(cs.prog, res.Events); len(bad) > 0 {
+			r.violate(Violation{Kind: "property", Key: "C06:order-after-failure:" + classifyOrder(bad[0]),
+				What: "in a run with a failure and a restart a job started before something it depends on had finished: " + bad[0], Input: input, Impl: bad})
 		}
 		// 4. after restart without the fault: completes with the reference outputs, only unfinished work re-executed
 		if res.Final != "complete" {
